@@ -79,6 +79,7 @@ type Exec struct {
 	unroll   int
 	boundObjs []types.Object
 	assuming int
+	loopEntry *State
 }
 
 func (ex *Exec) frame() *Frame { return ex.frames[len(ex.frames)-1] }
@@ -598,7 +599,11 @@ func (ex *Exec) runLoop(n ast.Node, label string, st *State, w *writes, cond fun
 	if ex.unroll > 0 && len(invs) == 0 && f.fn == ex.top && false {
 		_ = site
 	}
+	entrySt := st.clone()
 	evalInvs := func(s *State) []*Term {
+		saved := ex.loopEntry
+		ex.loopEntry = entrySt
+		defer func() { ex.loopEntry = saved }()
 		var out []*Term
 		for _, c := range invs {
 			out = append(out, ex.evalClause(c, s, f.oldSt, nil))
@@ -699,8 +704,7 @@ func (ex *Exec) execFor(s *ast.ForStmt, st *State, label string) {
 	if s.Post != nil {
 		post = func(x *State) { ex.execStmt(s.Post, x) }
 	}
-	// inferred counter facts for the idiom  for i := a; i != b / i < b; i++  are left to explicit invariants
-	ex.runLoop(s, label, st, w, cond, func(x *State) { ex.execBlock(s.Body.List, x) }, post, nil)
+	ex.runLoop(s, label, st, w, cond, func(x *State) { ex.execBlock(s.Body.List, x) }, post, ex.counterInvariant(s, st, w))
 }
 
 func (ex *Exec) execRange(s *ast.RangeStmt, st *State, label string) {
@@ -1170,5 +1174,84 @@ func (ex *Exec) famForModExpr(e ast.Expr, info *types.Info, w *writes) {
 				w.fams["M|"+typeKey(v.Type())+"|"] = true
 			}
 		}
+	}
+}
+
+// counterInvariant infers  A <= i && (A <= B ==> i <= B)  for the idiom  for i := A; i != B (or i < B, i <= B-1); i++ { body not assigning i or B }.
+func (ex *Exec) counterInvariant(s *ast.ForStmt, st *State, w *writes) func(*State) []*Term {
+	info := ex.info()
+	as, ok := s.Init.(*ast.AssignStmt)
+	if !ok || as.Tok != token.DEFINE || len(as.Lhs) != 1 || len(as.Rhs) != 1 {
+		return nil
+	}
+	id, ok := as.Lhs[0].(*ast.Ident)
+	if !ok {
+		return nil
+	}
+	obj := info.Defs[id]
+	if obj == nil {
+		return nil
+	}
+	inc, ok := s.Post.(*ast.IncDecStmt)
+	if !ok || inc.Tok != token.INC {
+		return nil
+	}
+	if pid, ok := inc.X.(*ast.Ident); !ok || info.Uses[pid] != obj {
+		return nil
+	}
+	be, ok := s.Cond.(*ast.BinaryExpr)
+	if !ok || (be.Op != token.NEQ && be.Op != token.LSS) {
+		return nil
+	}
+	if cid, ok := be.X.(*ast.Ident); !ok || info.Uses[cid] != obj {
+		return nil
+	}
+	// the counter must not be assigned in the body, the bound must be loop-invariant
+	bw := ex.scanWrites(s.Body, info)
+	if bw.vars[obj] {
+		return nil
+	}
+	boundOK := true
+	ast.Inspect(be.Y, func(n ast.Node) bool {
+		switch x := n.(type) {
+		case *ast.Ident:
+			if o := info.Uses[x]; o != nil {
+				if bw.vars[o] {
+					boundOK = false
+				}
+				if v, ok := o.(*types.Var); ok && isPkgLevel(v) {
+					boundOK = false
+				}
+			}
+		case *ast.CallExpr:
+			if fid, ok := x.Fun.(*ast.Ident); !ok || (fid.Name != "len" && fid.Name != "cap") {
+				boundOK = false
+			}
+		case *ast.StarExpr, *ast.IndexExpr:
+			boundOK = false
+		case *ast.SelectorExpr:
+			boundOK = false
+		}
+		return true
+	})
+	if !boundOK {
+		return nil
+	}
+	cur, ok := st.env[obj]
+	if !ok || cur.scalar().Sort.K != SGoInt {
+		return nil
+	}
+	a := cur.scalar() // value of A (already assigned by Init)
+	sub := st.clone()
+	ex.spec++
+	bv := ex.eval(be.Y, sub)
+	ex.spec--
+	b := ex.convertTo(bv, cur.T, sub).scalar()
+	if !sameSort(a.Sort, b.Sort) {
+		return nil
+	}
+	return func(x *State) []*Term {
+		i := x.env[obj].scalar()
+		return []*Term{mkImplies(mkCmp("le", a, b), mkAnd(mkCmp("le", a, i), mkCmp("le", i, b)))}
 	}
 }
